@@ -40,6 +40,13 @@ def gen_c16(rng: random.Random, sid: str, thorough: bool) -> dict:
         if not placed and st['op'] == 'at' and st['t'] >= 400:
             out += [{'op': 'ladd'}, {'op': 'bstart', 'types': ['_http._tcp.local.'], 'delay': 10000}]
             placed = True
+        if st['op'] == 'at' and rng.random() < 0.08:
+            # a truncated query with a QU question (exempt from the duplicate guard): its copy meets the hold of the first
+            regs = [x['svc'] for x in steps if x['op'] == 'reg']
+            if regs:
+                sp = rng.choice(regs)
+                out.append({'op': 'query', 'qs': [{'name': sp['type'], 'type': wire.T_PTR, 'sp': rng.randint(0, 2), 'qu': True}], 'tc': True,
+                            'qid': rng.randint(0, 65535), 'src': rng.choice(['10.0.0.9', '10.0.0.23']), 'known': []})
         if st['op'] == 'at' and rng.random() < 0.25:
             out.append({'op': 'resp', 'recs': remote_recs(rng)})
             if rng.random() < 0.2:
@@ -61,6 +68,21 @@ def gen_c16(rng: random.Random, sid: str, thorough: bool) -> dict:
                 shift += gap
                 tcur += gap
                 rep += [{'op': 'at', 't': tcur}, json.loads(json.dumps(st))]
+    regs = [x['svc'] for x in rep if x['op'] == 'reg' and not x.get('refused')]
+    gone = {x.get('sid') for x in rep if x['op'] in ('unreg',)}
+    closed = any(x['op'] in ('close', 'unreg_all') for x in rep)
+    live = [sp for sp in regs if sp['sid'] not in gone]
+    if live and not closed and rng.random() < 0.35:
+        # long after registration (the records of the description are older than a quarter of their TTL), a record is multicast in
+        # answer to a QM question and, a few seconds later, asked for with a QU question from port 5353: recently multicast, so the
+        # answer is unicast alone -- for the copy as well
+        sp = rng.choice(live)
+        tend = max([x['t'] for x in rep if x['op'] == 'at'] or [0]) + rng.choice([35000, 130000])
+        what = rng.choice([(sp['name'], wire.T_SRV), (sp['type'], wire.T_PTR), (sp['name'], wire.T_TXT)])
+        rep += [{'op': 'at', 't': tend}, {'op': 'query', 'qs': [{'name': what[0], 'type': what[1], 'sp': 0, 'qu': False}], 'qid': 0, 'src': '10.0.0.9', 'known': []},
+                {'op': 'at', 't': tend + rng.choice([1500, 3000, 6000])},
+                {'op': 'query', 'qs': [{'name': what[0], 'type': what[1], 'sp': rng.randint(0, 2), 'qu': True}], 'qid': 0, 'src': '10.0.0.23', 'known': []},
+                {'op': 'at', 't': tend + 9000}]
     sc['steps'] = rep
     for s in sc['steps']:
         s.pop('copies', None)
